@@ -113,6 +113,25 @@ def h_inside_fp(ctx):
         ctx.claim("fp64: inside[i] <=> closed-box predicate on doubles (NaN is outside)", iff(r[i], exp))
 
 
+def h_inside_int(ctx):
+    "integer-dtype coordinates against a real-valued region: still the exact closed-box predicate"
+    npts = ctx.cfg["npts"]
+    ei = ctx.ints("e", npts, -20, 20)
+    ni = ctx.ints("n", npts, -20, 20)
+    if ctx.sym:
+        e, n = npx.SymArray(ei, "int64"), npx.SymArray(ni, "int64")
+    else:
+        e, n = np.asarray(ei, dtype=np.int64), np.asarray(ni, dtype=np.int64)
+    w, ee, s, nn = ctx.real("W"), ctx.real("E"), ctx.real("S"), ctx.real("N")
+    ctx.assume(w <= ee)
+    ctx.assume(s <= nn)
+    r = vc.inside((e, n), (w, ee, s, nn))
+    ctx.claim("result has the input's shape", np.shape(r) == (npts,))
+    for i in range(npts):
+        exp = And(le(w, ei[i]), le(ei[i], ee), le(s, ni[i]), le(ni[i], nn))
+        ctx.claim("integer-dtype coordinates: inside[i] <=> W<=e<=E and S<=n<=N with the region's real bounds", iff(bool(r[i]), exp))
+
+
 def h_check_region(ctx):
     w, ee, s, nn = ctx.real("W"), ctx.real("E"), ctx.real("S"), ctx.real("N")
     try:
@@ -304,6 +323,7 @@ HARNESSES = [
         stubs=["np.greater_equal/less_equal/logical_and merged into terms instead of forking"],
         engine={"no_crosscheck": True},
     ),
+    Harness("inside_int_dtype", h_inside_int, lambda tier, seed: [{"npts": 1}] + ([{"npts": 2}] if tier == "thorough" else []), bounds="1-2 points with symbolic integer coordinates carried by a modelled int64 dtype (real int64 arrays in the replay); symbolic real region", stubs=["numpy dtype model: np.asarray(x, dtype=<int>) truncates (OUT-DTYPE)"], outside="float32 and other non-float64 floating dtypes"),
     Harness("check_region", h_check_region, {"quick": [{}]}, bounds="symbolic 4-tuples; lengths 0, 3, 5"),
     Harness("pad_region", h_pad_region, {"quick": [{"pair": False}, {"pair": True}]}, bounds="symbolic region and pads of either sign"),
     Harness(
